@@ -47,6 +47,7 @@ import (
 func init() { register("scenconfig", scenconfigMain) }
 
 type scCase struct {
+	ID   int             `json:"id"` // optional: the case's number in the full list (default: its line number)
 	Key  json.RawMessage `json:"key"`
 	Desc scDesc          `json:"desc"`
 }
@@ -240,7 +241,24 @@ func pHTTPAmmo(as []*httpgun.Scenario) []jmap {
 			steps[j] = jmap{"sleep": ms(r.Sleep),
 				"req": pHTTPReq(r.Name, r.Method, r.URI, r.Tag, r.Headers, r.Body, pre, r.Postprocessors, r.Templater)}
 		}
-		out[i] = jmap{"name": a.Name, "mwt": ms(a.MinWaitingTime), "steps": steps}
+		out[i] = jmap{"name": a.Name, "mwt": ms(a.MinWaitingTime), "steps": steps, "vars": pVars(a.VariableStorage)}
+	}
+	return out
+}
+
+// pVars: what the templates of an ammo see under .source: for a `variables` source its map, for file sources
+// nothing (their content is the data file's, not the description's)
+func pVars(st interface{ Variables() map[string]any }) jmap {
+	out := jmap{}
+	if st == nil {
+		return out
+	}
+	for name, v := range st.Variables() {
+		if m, ok := v.(map[string]interface{}); ok {
+			out[name] = pAnyMap(m)
+		} else {
+			out[name] = jmap{}
+		}
 	}
 	return out
 }
@@ -253,7 +271,7 @@ func pGRPCAmmo(as []*grpcgun.Scenario) []jmap {
 			steps[j] = jmap{"sleep": ms(r.Sleep),
 				"req": pCall(r.Name, r.Call, r.Tag, string(r.Payload), r.Metadata, r.Preprocessors, r.Postprocessors)}
 		}
-		out[i] = jmap{"name": a.Name, "mwt": ms(a.MinWaitingTime), "steps": steps}
+		out[i] = jmap{"name": a.Name, "mwt": ms(a.MinWaitingTime), "steps": steps, "vars": pVars(a.VariableStorage)}
 	}
 	return out
 }
@@ -378,7 +396,11 @@ func scenconfigMain(args []string) {
 		go func(wk int) {
 			defer wg.Done()
 			for i := wk; i < len(all); i += *workers {
-				lines[i], textsOut[i] = scOne(fs, wk, i+1, all[i])
+				id := all[i].ID
+				if id == 0 {
+					id = i + 1
+				}
+				lines[i], textsOut[i] = scOne(fs, wk, id, all[i])
 			}
 		}(wk)
 	}
@@ -392,7 +414,7 @@ func scenconfigMain(args []string) {
 		tw := vt.Create(*texts)
 		defer tw.Close()
 		for i, t := range textsOut {
-			tw.Emit(map[string]interface{}{"id": i + 1, "texts": t})
+			tw.Emit(map[string]interface{}{"id": lines[i].ID, "texts": t})
 		}
 	}
 }
